@@ -31,6 +31,15 @@ claimed = {
  "C16": dict(cat="model_checking", tech="stateless schedule exploration of the real heartbeat manager with a virtual clock (ticks and select choices are scheduler decisions), iterative deviation bounding, race detector per schedule",
              text="API sequences over {AddFunctionType(heartbeat), StartHeartbeat, StopHeartbeat, IsHeartbeatRunning, RemoveEntity} on one thread and split over two threads, timeouts 100ms..60s, 3 ticks per ticker: every interleaving up to the bound runs on the real code; no panic, period <= announced timeout, strictly increasing counter in successive notifications, current timestamp, store == last notification, never two streams, at most one refresh after stop returned, running stream keeps refreshing.",
              ref="4 C16"),
+ "C07": dict(cat="model_checking", tech="explicit-state BFS over operation histories on the real code with a reference tree + stateless schedule exploration of concurrent GetOrAddFeature (bounded and unbounded with trace-key pruning), race detector per schedule",
+             text="BFS over AddEntity/RemoveEntity/GetOrAddFeature/AddFeature(duplicate)/AddFunctionType histories; after every transition a discovery read from a subscribed and from an unsubscribed peer is compared with the reference tree (entities, feature numbers, types, roles, descriptions, operations), every announced address is resolved back, add/remove notifications are checked (exactly one, to subscribers only, with the features), feature numbers never repeat; all interleavings of 2-3 concurrent GetOrAddFeature calls: one feature per type and role, identical object, distinct numbers.",
+             ref="4 C07"),
+ "C14": dict(cat="model_checking", tech="explicit-state BFS over registration/reply/result histories on the real code with a reference callback table + stateless schedule exploration of registration vs arrival, race detector per schedule",
+             text="BFS over AddResponseCallback/AddResultCallback registrations (two features, two counters, identical and distinct function values) interleaved with replies and results (matching, non-matching, rejected, from two peers); after every transition the multiset of callback invocations (reference, originating remote feature, local feature, data) equals the reference; schedules: registration racing a reply, two matching messages on two connections: at most once, exactly once when registered before.",
+             ref="4 C14"),
+ "C20": dict(cat="model_checking", tech="explicit-state BFS over use-case operation histories on the real code with a reference map + stateless schedule exploration of concurrent read-modify-write cycles on different entities, race detector per schedule",
+             text="BFS over add/remove/set-availability/remove-all/remove-entity histories on entities [1],[1,1],[2], two actors, two names; after every transition HasUseCaseSupport for all 12 triples and the nodeManagementUseCaseData reply read by a peer equal the reference map (version, availability, scenarios, sub-revision); all interleavings of two threads working on different entities: nothing is lost.",
+             ref="4 C20"),
 }
 checks = []
 for pid, c in sorted(claimed.items()):
